@@ -26,6 +26,20 @@ IDEAS = {
         "positional argument mix-ups; off-by-one in ranges for iteration bookkeeping; units (degrees/radians) and conventions (xyzw vs wxyz) "
         "at API boundaries only some callers use"),
 }
+IDEAS[6] = ("numerical-analysis level changes that are algebraically equivalent but not in floating point (re-associated sums / products, "
+            "a different but 'equivalent' formula for an angle / norm / inverse, fused or split operations, accumulation in another order, "
+            "subtracting nearly equal numbers, sqrt of a difference, acos / asin instead of atan2 away from the places earlier rounds used, "
+            "normalising at another moment); tolerance semantics (rtol vs atol, np.isclose / np.allclose / math.isclose defaults, comparing "
+            "squared quantities with unsquared tolerances, <= vs <, abs() dropped for quantities that can be negative); behaviour for inputs "
+            "that are legal but degenerate in STRUCTURE rather than in value (graphs with several connected components, vertices no edge names, "
+            "edges whose two ids are equal where that is meaningful, landmarks seen from one pose only, empty iteration_results, max_iter=1, "
+            "single-vertex graphs, edges listed before / after / between the vertices they name in files, parameters defined after use); "
+            "bookkeeping of OptimizationResult / IterationResult objects (fields filled late, shared mutable defaults, durations, is_complete, "
+            "__str__ tables, objects reused between calls); changes in graphslam/__init__.py exports, logging calls with side effects, "
+            "string formatting of numbers (repr vs str vs format specs, locale, exponent forms, -0.0, integers written as floats and back), "
+            "integer-vs-float ids and counts in text; generators vs lists (a generator consumed twice, zip / map laziness, dict views mutated "
+            "while iterating); early `return` / `continue` / `break` placement in loops over edges or vertices; exception types and the state "
+            "left behind after an exception in the middle of a call (half-applied updates, flags set before a failure)")
 EXCLUDED = {
     5: ("no never-invalidated caches, no truly in-place `+=`, no stale fixed sets / re-used Hessians, no ids through floats, no sign handling at "
         "w = 0, no thresholds on absolute magnitudes of information / gradient / angles, no integer-dtype truncation, no skipped duplicate lines, "
@@ -34,6 +48,10 @@ EXCLUDED = {
         "append-mode exports"),
 }
 
+EXCLUDED[6] = (EXCLUDED[5] + ", no deepcopy / pickle hooks, no `python -O` assert tricks, no block sizes / size thresholds (chunked writers, solver "
+               "switches above N unknowns), no re-derivation of block offsets from the current list order, no warnings-filter dependence, no "
+               "`lstrip(tag)` character-set stripping, no flag resets after optimize, no rounding of Jacobians to fixed decimals, no "
+               "scalar-first quaternion order in parameter lines, no lowest-id-as-first-vertex")
 os.makedirs(pdir, exist_ok=True)
 for p in props:
     pid = p['id']
